@@ -30,6 +30,7 @@ type Ctx struct {
 	cases *bufio.Writer
 	impl  *bufio.Writer
 	orac  *bufio.Writer
+	jrnl  *os.File
 	mu    sync.Mutex
 	n     int
 	dist  map[string]int
@@ -70,6 +71,17 @@ func (c *Ctx) emit(line, obs string, nontrivial bool) {
 	}
 	if len(c.samples) < 6 && len(line) < 300 {
 		c.samples = append(c.samples, line+" => "+obs)
+	}
+}
+
+// begin journals the case about to run (unbuffered), so that a crash of the whole process
+// — a panic in a goroutine of the library cannot be recovered — still names its input.
+func (c *Ctx) begin(line string) {
+	c.mu.Lock()
+	defer c.mu.Unlock()
+	if c.jrnl != nil {
+		c.jrnl.Truncate(0)
+		c.jrnl.WriteAt([]byte(line+"\n"), 0)
 	}
 }
 
@@ -131,7 +143,9 @@ func main() {
 	cf, cw := open("cases.txt")
 	inf, iw := open("impl.txt")
 	of, ow := open("oracle.txt")
-	c := &Ctx{prop: *prop, tier: *tier, seed: *seed, dir: *dir, cases: cw, impl: iw, orac: ow,
+	jf, err := os.Create(filepath.Join(*dir, "journal.txt"))
+	must(err)
+	c := &Ctx{prop: *prop, tier: *tier, seed: *seed, dir: *dir, cases: cw, impl: iw, orac: ow, jrnl: jf,
 		dist: map[string]int{}, nontriv: map[string]bool{}}
 	runFile := func(path string) {
 		f, err := os.Open(path)
@@ -153,6 +167,7 @@ func main() {
 			if pr.exec == nil {
 				continue
 			}
+			c.begin(line)
 			obs, nt := pr.exec(line)
 			c.count("corpus")
 			c.emit(line, obs, nt)
@@ -166,6 +181,8 @@ func main() {
 	} else {
 		pr.gen(c)
 	}
+	jf.Truncate(0)
+	jf.Close()
 	cw.Flush()
 	iw.Flush()
 	ow.Flush()
